@@ -95,6 +95,7 @@ type stageIn struct {
 	Label  Ints            `json:"label"`
 	Labels IntsList        `json:"labels"`
 	Txt    Ints            `json:"txt"` // raw: stage text given verbatim (C06/C07 families)
+	IP     bool            `json:"ip"`  // line: the needle is an ip("...") matcher (single address, range or CIDR prefix)
 }
 
 type logqIn struct {
@@ -247,6 +248,9 @@ func (s *stageIn) text() string {
 		return "| label_format " + strings.Join(items, ", ")
 	case "line":
 		op := map[string]string{"eq": "|=", "neq": "!=", "re": "|~", "nre": "!~"}[s.Op]
+		if s.IP {
+			return op + " ip(" + quoteLogQL(S(s.Val)) + ")"
+		}
 		return op + " " + quoteLogQL(S(s.Val))
 	case "label":
 		return "| " + s.Pred.text()
@@ -734,6 +738,23 @@ func genAlgebra(r *rand.Rand) logqIn {
 			g = stageIn{T: "line", Op: map[string]string{"eq": "re", "neq": "nre"}[op], Val: B(txt), Re: eps}
 			if r.Intn(2) == 0 {
 				f, g = g, f
+			}
+		}
+		if r.Intn(5) == 0 {
+			// ip() line filters: a filter and its negation split the lines like any other (lines without an address, with
+			// one, with several of which only some match)
+			ipLines := []string{"10.0.0.1", "x 10.0.0.2 y", "10.0.0.1 10.0.0.9", "no address here", "addr=10.0.0.3 peer=192.168.1.7", "", "::1 and 10.0.0.1",
+				"fe80::1", "300.1.1.1", "10.0.0.1:8080", "[10.0.0.4]"}
+			for i := range in.Recs {
+				if r.Intn(3) != 0 {
+					in.Recs[i].Line, in.Recs[i].Doc = B(pick(r, ipLines)), [][2][]int{}
+				}
+			}
+			ipPats := []string{"10.0.0.1", "10.0.0.0/8", "10.0.0.1-10.0.0.3", "::1", "192.168.0.0/16", "0.0.0.0/0"}
+			op := []string{"eq", "neq"}[r.Intn(2)]
+			f = stageIn{T: "line", Op: op, Val: B(pick(r, ipPats)), Re: eps, IP: true}
+			if r.Intn(2) == 0 {
+				g = stageIn{T: "line", Op: []string{"eq", "neq"}[r.Intn(2)], Val: B(pick(r, ipPats)), Re: eps, IP: true}
 			}
 		}
 		in.Fam = "fg"
